@@ -275,6 +275,11 @@ class C03:
             for p, r in zip(proofs, dres):
                 if r.status == "OK" and r.b(0) != p["proof"]:
                     fail(S, "proof-roundtrip", "re-encoding differs", [p["proof"].hex()])
+            # the serde (JSON) form: every proof -- all-disclosed and all-hidden ones included -- comes back as the same octets
+            jres = S.run(["json proof %s" % tb(p["proof"]) for p in proofs], expect="ok", label="proof-json-roundtrip")
+            for p, r in zip(proofs, jres):
+                if r.status == "OK" and (r.toks[0] == "MISMATCH" or r.b(0) != p["proof"]):
+                    fail(S, "proof-json-roundtrip", "the JSON round trip changed the proof", [p["proof"].hex()])
         return stats
 
 # ====================================================================================== C04
@@ -423,6 +428,11 @@ class C04:
                 add(pv_line(p, proof=pr[:240] + pyc.sc(rng.randrange(pyc.R)) + pr[240:]), "insert-scalar")
                 # shifting L by an index beyond range
                 add(pv_line(p, D=D + [L + 5], dmsgs=dm + [b""]), "index-out-of-range")
+                # exactly ONE of the two lists supplied (the other absent): a claimed message without a position, a position without a message
+                forged1 = b"role: admin" + rb(rng, 2)
+                und1 = [i for i in range(L) if i not in D]
+                for dm1, D1 in [(dm + [forged1], None), ([forged1], None), (None, (D + und1[:1]) or [0]), (None, [0])]:
+                    add("proofverify %s %s %s %s %s %s %s" % (p["suite"], tb(p["pk"]), tb(p["proof"]), tol(dm1), toi(D1), tob(p["header"]), tob(p["ph"])), "one-list-absent")
             # every FIELD of a proof replaced by the same field of a second proof for the same statement (fresh randomness):
             # the challenge ties all of them together, no recombination of two honest proofs may verify
             tp = proofs[: (4 if tier == "quick" else 24)]
@@ -603,6 +613,19 @@ class C06:
                         b2_ = r2.b(0); cuts = [0, 48] + list(range(80, len(cwp) + 1, 32))
                         for lo, hi in zip(cuts, cuts[1:]):
                             if cwp[lo:hi] != b2_[lo:hi]: add(bs(f, cwp[:lo] + b2_[lo:hi] + cwp[hi:]), "commit-field-transplant")
+                # SPECIAL group elements in the place of the commitment point -- the identity ("no commitment"), P1, the negated point --
+                # with the honest proof scalars, and the identity followed by any 2 + k canonical scalars: nothing of this carries a valid proof
+                add(bs(f, pyc.G1_ID + cwp[48:]), "commit-identity-point")
+                add(bs(f, pyc.G1_ID + cwp[48:-32]), "commit-identity-point")
+                for k_ in range(0, 4):
+                    add(bs(f, pyc.G1_ID + b"".join(pyc.sc(1 + rng.randrange(pyc.R - 1)) for _ in range(2 + k_))), "commit-identity-point-any-scalars")
+                add(bs(f, pyc.G1_ID + bytes(31) + b"\1" + bytes(31) + b"\1"), "commit-identity-point-any-scalars")
+                if k == 0:
+                    PP_ = pyc.Prims()
+                    add(bs(f, PP_.neg(cwp[:48]) + cwp[48:]), "commit-negated-point")
+                    g_ = S.run(["gens %s 2 S%s" % (f["suite"], pyc.API_BLIND[f["suite"]].hex())], expect="ok", label="triv:gens")[0]
+                    if g_.status == "OK":
+                        add(bs(f, g_.b(0) + cwp[48:]), "commit-P1-point"); add(bs(f, g_.b(1)[:48] + cwp[48:]), "commit-Q1-point")
                 # proof made for other committed messages, transplanted onto this commitment point
                 o = [g for g in flows if g is not f and len(g["cm"]) == len(f["cm"])]
                 for g in o[:1]:
